@@ -15,12 +15,20 @@
        (C19_increasing_supply_never_reuses_an_id): trace ids are globally unique.
    (3) finite check, stated as such: for the witness program every interference
        script of length <= 4 with entries in {0,1,2} gives 24 under that supply.
-   NOT YET A THEOREM (tied by correspondence under a controlled scheduler):
-   that globally unique, increasing ids imply the solo result for every program
-   (invariance of the evaluator under order-preserving renaming of ids). *)
+   (4) C20_increasing_supply_noninterference - FULL STATEMENT for the design
+       /repo now implements: for EVERY program and EVERY non-negative
+       interference script (= every schedule of the other threads, who can only
+       advance the counter), the thread observes exactly its solo result.
+       Proof: the evaluator commutes with strictly increasing renamings of
+       trace ids (RenameEval.v: eval_ren); the interfered run is the renamed
+       solo run.
+   What the theorem cannot exhibit: preemption inside autograd's own bytecode
+   (the counter draw `next(_trace_ids)` is one C call under the GIL) and writes
+   to registries after import; the controlled scheduler explores the former at
+   hook granularity only. *)
 From Coq Require Import List ZArith Bool.
 Import ListNotations.
-From AG Require Import Toposort Tagged Tower Run08 TaggedProof.
+From AG Require Import Toposort Tagged Tower Run08 TaggedProof RenameProof RenameEval.
 Local Open Scope Z_scope.
 
 Definition witness : exp :=
@@ -55,6 +63,23 @@ Theorem C20_increasing_supply_witness_all_small_scripts :
              end) (scripts 4) = true.
 Proof. vm_compute. reflexivity. Qed.
 Print Assumptions C20_increasing_supply_witness_all_small_scripts.
+
+Theorem C20_increasing_supply_noninterference :
+  forall (K : Type) k0 k1 kadd ksub kmul kopp kF ksign kpos kofZ fuel e top0 noise0,
+    (-1 <= top0)%Z -> Forall (fun d => (0 <= d)%Z) noise0 ->
+    observe K (eval K k0 k1 kadd ksub kmul kopp kF ksign kpos kofZ Mono fuel [] e
+                    {| top := top0; store := []; noise := noise0 |})
+    = observe K (eval K k0 k1 kadd ksub kmul kopp kF ksign kpos kofZ Mono fuel [] e (init_state K)).
+Proof.
+  intros K k0 k1 kadd ksub kmul kopp kF ksign kpos kofZ.
+  exact (increasing_supply_noninterference K k0 k1 kadd ksub kmul kopp kF ksign kpos kofZ).
+Qed.
+Print Assumptions C20_increasing_supply_noninterference.
+
+(* the scripts the scheduler induces are non-negative, and the supply modelled is /repo's *)
+Example C20_premises_met :
+  SUPPLY = Mono /\ Forall (fun d => 0 <= d) (noise_of Mono bad_schedule).
+Proof. split; [reflexivity|]. vm_compute. repeat constructor; discriminate. Qed.
 
 Example C20_witness_values :
   run_noisy Depth witness bad_schedule = Some (Some 9)
